@@ -306,7 +306,7 @@ func (c *FnCtx) oblige(p *Path, kind, label, goal, src string, props []string) {
 	if len(c.obs) > 0 && false {
 		return
 	}
-	c.obs = append(c.obs, &Obligation{Name: name, Kind: kind, Func: c.label, Props: props, NDecl: -1, Ctx: c,
+	c.obs = append(c.obs, &Obligation{Name: name, Kind: kind, Func: c.label, Props: props, NDecl: len(c.decls), Ctx: c,
 		Assumes: append([]string(nil), p.assumes...), Goal: goal, Path: strings.Join(p.trace, ">"), Src: src})
 }
 
@@ -475,8 +475,8 @@ func (c *FnCtx) load(p *Path, h *HeapView, ptr Val, t types.Type) Val {
 }
 
 func (p *Path) noteBase(b string) {
-	if len(b) > 200 {
-		return
+	if len(b) > 200 || strings.Contains(b, "|b q_") {
+		return // too large, or mentions a bound variable of a quantified contract clause
 	}
 	for _, x := range p.bases {
 		if x == b {
@@ -654,6 +654,10 @@ func (c *FnCtx) execFrom(p *Path, b *ssa.BasicBlock, idx int) []outcome {
 			c.execPhis(p, b)
 		}
 	}
+	if idx == 1_000_000 { // entered through mergeTriangle: phis already set, no loop-head processing
+		idx = 0
+		p.trace = append(p.trace, fmt.Sprintf("%s.%d", fr.fn.Name(), b.Index))
+	}
 	for i := idx; i < len(b.Instrs); i++ {
 		ins := b.Instrs[i]
 		switch x := ins.(type) {
@@ -669,6 +673,9 @@ func (c *FnCtx) execFrom(p *Path, b *ssa.BasicBlock, idx int) []outcome {
 			continue
 		case *ssa.If:
 			cond := c.val(p, x.Cond)
+			if j := c.mergeTriangle(p, b, cond.T); j != nil {
+				return c.execFrom(p, j, 1_000_000)
+			}
 			return c.branch(p, b, cond.T)
 		case *ssa.Jump:
 			fr.prev = b
@@ -730,6 +737,78 @@ func (c *FnCtx) execFrom(p *Path, b *ssa.BasicBlock, idx int) []outcome {
 		}
 	}
 	return nil
+}
+
+// mergeTriangle: `if c { x = e }` where the then-block only jumps to the join block: no fork, the join's
+// phis become ite(c, then-value, fallthrough-value). Keeps the number of paths down for chains of defaults.
+func (c *FnCtx) mergeTriangle(p *Path, b *ssa.BasicBlock, cond string) *ssa.BasicBlock {
+	if cond == "true" || cond == "false" || len(b.Succs) != 2 {
+		return nil
+	}
+	var side, join *ssa.BasicBlock
+	neg := false
+	empty := func(x *ssa.BasicBlock) bool {
+		if len(x.Preds) != 1 || len(x.Succs) != 1 {
+			return false
+		}
+		for _, ins := range x.Instrs {
+			switch ins.(type) {
+			case *ssa.DebugRef, *ssa.Jump:
+			default:
+				return false
+			}
+		}
+		return true
+	}
+	if empty(b.Succs[0]) && b.Succs[0].Succs[0] == b.Succs[1] {
+		side, join = b.Succs[0], b.Succs[1]
+	} else if empty(b.Succs[1]) && b.Succs[1].Succs[0] == b.Succs[0] {
+		side, join, neg = b.Succs[1], b.Succs[0], true
+	} else {
+		return nil
+	}
+	fr := p.top()
+	if c.eng.loopInfo(fr.fn)[join] != nil || len(join.Preds) != 2 {
+		return nil
+	}
+	is, ib := -1, -1
+	for i, pr := range join.Preds {
+		if pr == side {
+			is = i
+		}
+		if pr == b {
+			ib = i
+		}
+	}
+	if is < 0 || ib < 0 {
+		return nil
+	}
+	var phis []*ssa.Phi
+	var vals []Val
+	for _, ins := range join.Instrs {
+		ph, ok := ins.(*ssa.Phi)
+		if !ok {
+			break
+		}
+		vs, vb := c.val(p, ph.Edges[is]), c.val(p, ph.Edges[ib])
+		if vs.K != vb.K || (vs.K != KInt && vs.K != KBool && vs.K != KStr) {
+			return nil // only scalars are merged
+		}
+		cnd := cond
+		if neg {
+			cnd = "(not " + cond + ")"
+		}
+		v := vs
+		v.T = fmt.Sprintf("(ite %s %s %s)", cnd, vs.T, vb.T)
+		v.Typ = ph.Type()
+		phis = append(phis, ph)
+		vals = append(vals, v)
+	}
+	for i, ph := range phis {
+		fr.regs[ph] = c.nameIt(p, vals[i], ph.Name())
+	}
+	fr.prev = side
+	return join
 }
 
 func (c *FnCtx) branch(p *Path, b *ssa.BasicBlock, cond string) []outcome {
